@@ -88,9 +88,23 @@ void h_write(void) {
     struct VValue v; v.kind = (enum VKind)nondet_int(); v.bound = (enum VBound)nondet_int(); v.intvalue = nondet_bigint();
     __CPROVER_assume(v.kind >= K_KNOWN && v.kind <= K_IMPOSSIBLE && v.bound >= BOUND_Upper && v.bound <= BOUND_Point);
     __CPROVER_assume(v.kind != K_KNOWN || v.bound == BOUND_Point);
-    struct ValueType dst; dst.sign = (enum Sign)nondet_int(); dst.pointer = nondet_bool() ? 1 : 0; dst.type = VType_INT; dst.bits = 0; dst.constness = 0;
+    struct ValueType dst; dst.sign = (enum Sign)nondet_int(); dst.pointer = nondet_bool() ? 1 : 0; dst.type = nondet_bool() ? VType_BOOL : VType_INT; dst.bits = 0; dst.constness = 0;
     __CPROVER_assume(dst.sign == Sign_UNKNOWN_SIGN || dst.sign == Sign_SIGNED || dst.sign == Sign_UNSIGNED);
     _Bool has_dst = nondet_bool(), dec = nondet_bool(), reverse = nondet_bool(); size_t sz = nondet_size_t(); __CPROVER_assume(sz == 0 || sz == 1 || sz == 2 || sz == 4 || sz == 8);
+    if (dst.type == VType_BOOL) {
+        /* ++b / --b on a _Bool (C11 6.5.3.1, 6.3.1.2): the new value is (b + 1) != 0, i.e. 1, and (b - 1) != 0, i.e. !b */
+        __CPROVER_assume(dst.sign == Sign_UNKNOWN_SIGN && sz == 1);
+        bigint xb = nondet_bigint(); __CPROVER_assume(xb == 0 || xb == 1);
+#if defined(CLASS_WRAP)
+        __CPROVER_assume(0);
+#endif
+        if (reverse || !has_dst || dst.pointer != 0 || v.kind == K_POSSIBLE) { write_block(&v, !dec, reverse, has_dst ? &dst : NULL, sz); return; }
+        __CPROVER_assume(fact(&v, xb));
+        g_in_v = v.intvalue; g_in_x = xb; g_in_kind = v.kind; g_in_bound = v.bound; g_in_sz = 1; g_in_sign = 0; g_in_ptr = 0; g_in_hasdst = 1; g_in_dec = dec;
+        write_block(&v, !dec, reverse, &dst, sz);
+        __CPROVER_assert(fact(&v, dec ? (xb == 0) : 1), "the value of a _Bool variable after ++b / --b is a true fact for every value the input fact allows");
+        return;
+    }
     _Bool decided = !reverse && has_dst && dst.pointer == 0 && dst.sign != Sign_UNKNOWN_SIGN && sz != 0 && sz != 8;
     _Bool sgn = dst.sign == Sign_SIGNED;
     bigint x = nondet_bigint();
@@ -213,6 +227,9 @@ def build(ctx):
         (r'bool inc = tok->astParent\(\)->str\(\) == "\+\+"\s*;', '_Bool inc = inc_in;', 1, 1),
         (r'const std::string opName\([^;]*\)\s*;', '', 1, 1),
         (r'\bd == Direction::Reverse\b', 'reverse', 1, 1),
+        (r'\bd == Direction::Forward\b', '!reverse', 0, 1),
+        (r'\bvalue->isIntValue\(\)', '1 /* an integer value */', 0, 1),
+        (r'\bvalue->isImpossible\(\)', '(v->kind == K_IMPOSSIBLE)', 0, 1),
         (r'\bconst ValueType \*dst = tok->valueType\(\)\s*;', 'const struct ValueType *dst = dst_in;', 1, 1),
         (r'\bdst->getSizeOf\(settings,\s*ValueType::Accuracy::ExactOrZero,\s*ValueType::SizeOf::Pointer\)', 'sz_in', 1, 1),
         (r'\bValueFlow::truncateIntValue\(', 'truncateIntValue(', 1, 1),
